@@ -624,6 +624,19 @@ func main() {
 	}
 }
 """),
+    ("raw-field-method-twin", """package main
+
+import "fmt"
+
+type Acc struct{ total int }
+
+func (a *Acc) Total() int { return a.total }
+
+func main() {
+	a := &Acc{3}
+	fmt.Println(a.Total())
+}
+"""),
     ("raw-control-mixed", """package main
 
 import (
@@ -632,11 +645,11 @@ import (
 	"strings"
 )
 
-type Acc struct{ total int }
+type Acc struct{ sum int }
 
-func (a *Acc) Add(n int) *Acc { a.total += n; return a }
+func (a *Acc) Add(n int) *Acc { a.sum += n; return a }
 
-func (a *Acc) Total() int { return a.total }
+func (a *Acc) Total() int { return a.sum }
 
 func fold(xs []int, f func(int, int) int) int {
 	r := 0
@@ -665,3 +678,8 @@ func main() {
 }
 """),
 ]
+
+
+# programs whose observable behaviour involves package initialisation order: built and run as
+# separate binaries (the batched runner executes all package-level initialisers before any Main)
+SOLO = {"raw-init-order"}
